@@ -3,3 +3,7 @@
 /// `str::chars().count()`: the number of code points
 pub assume_specification<'a>[ <core::str::Chars<'a> as Iterator>::count ](c: core::str::Chars<'a>) -> (r: usize)
     ensures r == vstd::std_specs::iter::IteratorSpec::remaining(&c).len();
+/// `usize::next_multiple_of` (std): the smallest multiple of `m` that is >= x; panics for m == 0 and on overflow
+pub assume_specification[ usize::next_multiple_of ](x: usize, m: usize) -> (r: usize)
+    requires m > 0, x + m <= usize::MAX,
+    ensures r >= x, r < x + m, r % m == 0;
